@@ -71,7 +71,7 @@ var c12Classes = [][]string{
 var c12WS = []string{" ", " ", "\t", "\n", "  ", " \n ", "\t \t", " ", " ", ""}
 
 type c12Spec struct {
-	classes []int  // index into c12Classes, or -1 for a whitespace slot
+	classes []int // index into c12Classes, or -1 for a whitespace slot
 }
 
 func c12Label(r *core.Rand, spec c12Spec, exact bool) string {
